@@ -168,7 +168,16 @@ pub fn derive_slice_mut(input: &Input) -> TokenStream {
             }
 
             fn apply_index(&mut self, indices: &[usize]) {
-                self.__private_apply_permutation(&mut ::soa_derive::Permutation::oneline(indices).inverse());
+                // `Permutation` only validates its input with debug assertions:
+                // check it here, before any field is touched, so that an
+                // invalid index list can not leave the fields out of sync.
+                assert_eq!(
+                    indices.len(), self.len(),
+                    "apply_index: expected {} indices, got {}", self.len(), indices.len()
+                );
+                let permutation = ::soa_derive::Permutation::oneline(indices);
+                assert!(permutation.valid(), "apply_index: the indices are not a permutation of 0..len");
+                self.__private_apply_permutation(&mut permutation.inverse());
             }
 
             fn as_ptr(&self) -> Self::Ptr {
